@@ -6,8 +6,8 @@ asyncio.open_connection whose result (refused / connected, response bytes / garb
 from lib.coqterm import cbool, clist, cnat, cN, copt
 
 ID = "C53"
-QUICK_N = 900
-THOROUGH_N = 15000
+QUICK_N = 700
+THOROUGH_N = 12000
 SHARD = 150
 COQ_PRELUDE = "From MV Require Import Model.FlowBackup Model.ClientPlayback.\n"
 RULE = ("(a) 128 check() decision-table cases (all values of live, is-inflight, intercepted, HTTP, request, content, websocket on real "
